@@ -108,9 +108,11 @@ type Violation struct {
 }
 
 type World struct {
-	mu  sync.Mutex
-	cfg *Config
-	rng *rand.Rand
+	wake  chan struct{} // a call has just parked (ends the scheduler's sleep)
+	gates *gateState
+	mu    sync.Mutex
+	cfg   *Config
+	rng   *rand.Rand
 
 	parked   map[string]*parked
 	frozen   []*parked // calls of dead incarnations, never released (until poison)
@@ -174,6 +176,7 @@ func NewWorld(cfg *Config, follow []Choice, strict bool) *World {
 		cfg:        cfg,
 		rng:        rand.New(rand.NewPCG(uint64(cfg.Seed), 0x5eed5eed^uint64(cfg.Seed)*31)),
 		parked:     map[string]*parked{},
+		wake:       make(chan struct{}, 1),
 		keyCount:   map[string]int{},
 		follow:     follow,
 		strict:     strict,
@@ -239,6 +242,20 @@ func (w *World) violate(prop, class, msg string) {
 	w.violations = append(w.violations, Violation{Prop: prop, Class: class, Msg: msg, Seq: len(w.events), Step: w.step})
 }
 
+// hasOwnViolation: a violation of the property this run is looking for (any violation when
+// no focus is set). A violation of another property does not end the run: what the focus
+// property's oracles make of the consequences is what the check is after.
+func (w *World) hasOwnViolation() bool {
+	w.mu.Lock()
+	defer w.mu.Unlock()
+	for _, v := range w.violations {
+		if w.cfg.Focus == "" || v.Prop == w.cfg.Focus || v.Prop == "HARNESS" {
+			return true
+		}
+	}
+	return false
+}
+
 func (w *World) hasViolation() bool {
 	w.mu.Lock()
 	defer w.mu.Unlock()
@@ -248,6 +265,8 @@ func (w *World) hasViolation() bool {
 // park blocks the calling goroutine until the scheduler releases it.
 // kind/ent identify the seam; inc is the incarnation the caller belongs to.
 func (w *World) park(ctx context.Context, kind, ent string, inc int, enabled func() bool, faults ...string) decision {
+	// (no gate inside the simulator's own parking code)
+	defer simSetNoYield(simSetNoYield(true))
 	w.mu.Lock()
 	if w.dead {
 		// the run is over: never let this goroutine touch the world again. It stays
@@ -291,6 +310,10 @@ func (w *World) park(ctx context.Context, kind, ent string, inc int, enabled fun
 	}
 	w.parked[p.key] = p
 	w.mu.Unlock()
+	select {
+	case w.wake <- struct{}{}:
+	default:
+	}
 
 	var done <-chan struct{}
 	if ctx != nil {
@@ -372,7 +395,7 @@ func (w *World) Run() {
 	w.idleSince = time.Now()
 	for {
 		synctest.Wait()
-		if w.stopOnViol && w.hasViolation() {
+		if w.stopOnViol && w.hasOwnViolation() {
 			return
 		}
 		w.mu.Lock()
@@ -412,8 +435,7 @@ func (w *World) Run() {
 		}
 		w.choices = append(w.choices, ch)
 		if ch.K == "T" {
-			q := quanta[ch.A%len(quanta)]
-			time.Sleep(q)
+			w.sleep(quanta[ch.A%len(quanta)])
 			continue
 		}
 		w.mu.Lock()
@@ -443,6 +465,22 @@ func (w *World) Run() {
 		}
 		w.stepsServed++
 		p.ch <- decision{fault: ch.F, arg: ch.A}
+	}
+}
+
+// sleep lets simulated time pass for at most q. A call that parks meanwhile (a timer of the
+// engine fired and its goroutine reached a seam or a gate) ends the sleep at that very
+// instant: the scheduler sees it at the time it happened, not at the end of the quantum.
+func (w *World) sleep(q time.Duration) {
+	select {
+	case <-w.wake:
+	default:
+	}
+	t := time.NewTimer(q)
+	select {
+	case <-t.C:
+	case <-w.wake:
+		t.Stop()
 	}
 }
 
@@ -511,6 +549,12 @@ func (w *World) choose(items []enabledItem) Choice {
 		}
 	}
 	pT := w.cfg.TimeAdvancePct
+	for _, it := range items {
+		if it.p.kind == "gate" {
+			pT = 0 // a goroutine waits at a gate: a preemption is short, time does not pass
+			break
+		}
+	}
 	if len(overdue) == 0 && w.rng.IntN(100) < pT {
 		// small quanta only while calls are parked (keeps the world responsive)
 		return Choice{K: "T", A: arg % 5}
